@@ -297,6 +297,10 @@ def stepLine (s : DState) (line : String) : DState × String :=
     match s.game with
     | some g => if g.event != .blindsRequested then (s, gameStr "st" g (errName (some .invalidAction))) else (s, "bad")
     | none => (s, "bad")
+  | "query" :: _ =>   -- read-only queries of the game (GetStateJSON, Dealer, PrintState, …): the state is what it was
+    match s.game with
+    | some g => (s, gameStr "st" g "none")
+    | none => (s, "bad")
   | "noise" :: _ => (s, "ok")   -- a call of an options / deck constructor of the package while the hand runs: no effect on the hand
   | "op" :: rest =>
     match s.game, parseOp rest with
@@ -320,6 +324,7 @@ def stepLine (s : DState) (line : String) : DState × String :=
     | some g => ({ s with game := some g.hop }, "ok")
     | none => (s, "bad")
   | "sm" :: "new" :: [m] => let sm := SM.new (m.toNat?.getD 0); ({ s with sm := sm }, smStr sm none none)
+  | ["sm", "hop"] => (s, smStr s.sm none none)   -- a save / restore of the seat manager (`ApplyStates` of its own state): nothing changes
   | "sm" :: rest =>
     match parseSMOp rest with
     | some op => let (sm, e, ret) := s.sm.step op; ({ s with sm := sm }, smStr sm e ret)
